@@ -467,15 +467,27 @@ def hist_stream(ctx):
     # the independent reference: every distinct (profile, document) ALONE in a process of its own (same clock, same configuration)
     import concurrent.futures, hashlib
     solo_of = {}
+    def ctx_states(case):
+        """the referenced context documents as they stand when position k is validated"""
+        st, out = {}, []
+        for k in range(len(case["docs"])):
+            st = dict(st, **((case.get("ctx") or [{}] * len(case["docs"]))[k]))
+            out.append(json.dumps(st, sort_keys=True))
+        return out
+    def solo_key(case, k, states):
+        rc = (case.get("rcs") or [None] * len(case["docs"]))[k]
+        return (case["profile"], case["docs"][k], json.dumps(rc), states[k] if "__CTX__" in case["docs"][k] else "{}")
     for line in lines:
         case = json.loads(line)
+        states = ctx_states(case)
         for k, d in enumerate(case["docs"]):
-            rc = (case.get("rcs") or [None] * len(case["docs"]))[k]
-            solo_of.setdefault((case["profile"], d, json.dumps(rc)), None)
+            solo_of.setdefault(solo_key(case, k, states), None)
     def solo(key):
         q = {"op": "c06", "id": 0, "profile": key[0], "data": key[1]}
         if json.loads(key[2]) is not None:
             q["rc"] = json.loads(key[2])
+        if key[3] != "{}":
+            q["ctxFiles"] = json.loads(key[3])
         p = subprocess.run([ACVH, "oneshot"], input=json.dumps(q) + "\n", capture_output=True, text=True, timeout=600)
         for l in p.stdout.split("\n"):
             if l.strip().startswith("{"):
@@ -491,9 +503,10 @@ def hist_stream(ctx):
         case = json.loads(line)
         docs += len(case["docs"])
         r = cmp_hist(case, i, None)
+        states = ctx_states(case)
         if not r and i.get("outcome") == "ok":
             for k, p in enumerate(i["positions"]):
-                ref = solo_of.get((case["profile"], case["docs"][k], json.dumps((case.get("rcs") or [None] * len(case["docs"]))[k])))
+                ref = solo_of.get(solo_key(case, k, states))
                 mine = ("ok:" if p["compiled"] == "ok" else "error:") + (p.get("hash") or "")
                 if ref and p["compiled"] in ("ok", "err") and ref != mine:
                     r = ("history-vs-alone", f"position {k} ({case['kinds'][k]}) of a history of {len(case['docs'])} documents (kinds before: {case['kinds'][:k]}): the compiled profile's answer differs from the same validation ALONE in a fresh process")
@@ -644,6 +657,8 @@ def cmp_c16(case, i, m):
         return ("~model-error", "model driver rejected the case: " + m["error"])
     if i.get("result") == "PANIC":
         return ("panic", f"ParsePath({case['text']!r}) panicked: {str(i.get('err'))[:150]}")
+    if "canonResult" in i and i["canonResult"] != i.get("result") and "PANIC" not in (i["canonResult"], i.get("result")):
+        return ("whitespace-variant", f"ParsePath({case['text']!r}) = {i.get('result')} but the same path without optional whitespace, {case['canon']!r}, gives {i['canonResult']}")
     if i.get("result") != m.get("result"):
         return ("parse", f"ParsePath({case['text']!r}) = {i.get('result')} but the documented grammar gives {m.get('result')}")
     want = "REJECT" if m.get("result") == "REJECT" else "ACCEPT"
@@ -980,6 +995,17 @@ C10_THEOREMS = ["Acv.C10.atomic_issues_range", "Acv.C10.atomic_unique", "Acv.C10
                 "Acv.C10.package_vars_expected", "Acv.C10.writes_are_atomic", "Acv.C10.no_goroutines"]
 
 
+def run_private_tmp(cmd, env, timeout=1800):
+    """run a harness command whose temporary files (context documents) go to a directory of its own, removed afterwards
+    even when the process is killed or the race detector ends it"""
+    import tempfile, shutil
+    d = tempfile.mkdtemp(prefix="acvrun")
+    try:
+        return subprocess.run(cmd, capture_output=True, text=True, timeout=timeout, env=dict(env, TMPDIR=d))
+    finally:
+        shutil.rmtree(d, ignore_errors=True)
+
+
 def check_C10(ctx):
     broken = []
     try:
@@ -999,8 +1025,7 @@ def check_C10(ctx):
         total_calls, bad = 0, 0
         for r in range(rounds):
             env = dict(os.environ, GORACE="halt_on_error=0 history_size=2")
-            p = subprocess.run([race_bin, "racestress", str(ctx.seed * 100 + r), "16" if ctx.quick() else "24", "8" if ctx.quick() else "12"],
-                               capture_output=True, text=True, timeout=1800, env=env)
+            p = run_private_tmp([race_bin, "racestress", str(ctx.seed * 100 + r), "16" if ctx.quick() else "24", "8" if ctx.quick() else "12"], env)
             out = None
             for l in p.stdout.split("\n"):
                 if l.startswith("{"):
@@ -1109,7 +1134,7 @@ def check_C06(ctx):
         crounds = 6 if ctx.quick() else 60
         for r in range(crounds):
             gor = [2, 4, 8, 16, 32, 64][r % 6]
-            p = subprocess.run([ACVH, "racestress", str(ctx.seed * 100 + 50 + r), str(gor), "8"], capture_output=True, text=True, timeout=1800)
+            p = run_private_tmp([ACVH, "racestress", str(ctx.seed * 100 + 50 + r), str(gor), "8"], dict(os.environ))
             out = None
             for l in p.stdout.split("\n"):
                 if l.startswith("{"):
